@@ -10,6 +10,7 @@ Chk(name, ok) == ok \/ PrintT(<<"FAIL", Recs[i].id, name>>)
 JInv == /\ Chk("C05_Stream", C05_Stream(Recs[i]))
         /\ Chk("C05_Count", C05_Count(Recs[i]))
         /\ Chk("C05_Closed", C05_Closed(Recs[i]))
+        /\ Chk("C05_End", C05_End(Recs[i]))
         /\ Chk("C05_Call", C05_Call(Recs[i]))
         /\ Chk("C17_Live", C17_Live(Recs[i]))
         /\ Chk("C17_Equivalent", C17_Equivalent(Recs[i]))
